@@ -75,3 +75,26 @@ def run_sync_or_coro(w, r):
     if isinstance(r, (Coro, NativeCoro)):
         return w.run_coro(r)
     return r
+
+
+def load_probe(w, fs, fmt, version="2.2"):
+    """What a start-up would load right now: the REAL safe_load_sensors of a fresh gateway, run on
+    a copy of the file system (the loader renames / removes files; the probe must not disturb the
+    run it observes).  Returns the loaded projection."""
+    saved = ({k: list(v) for k, v in fs.files.items()}, fs.nops, list(fs.log), fs.fault_at,
+             fs.crash_at, fs.dump_fault, list(fs.loads))
+    fs.fault_at = fs.crash_at = None
+    fs.dump_fault = False
+    try:
+        g2 = pgateway(w, version, fmt)
+        try:
+            w.call(g2.gw.tasks.persistence.safe_load_sensors)
+        except Exception as exc:
+            w.escaped(exc, "start-up load raised")
+        return snapshot(g2.gw.sensors)
+    finally:
+        fs.files.clear()
+        fs.files.update(saved[0])
+        fs.nops, fs.fault_at, fs.crash_at, fs.dump_fault = saved[1], saved[3], saved[4], saved[5]
+        fs.log[:] = saved[2]
+        fs.loads[:] = saved[6]
